@@ -6,6 +6,8 @@ import PV.C26.LemmasNum
 import PV.C26.LemmasPql
 import PV.C26.LemmasLit
 import PV.C26.LemmasNest
+import PV.C26.LemmasLitSpec
+import PV.C26.LemmasHard
 namespace PV.C26
 
 /-- `pql.ParseString` over the regenerated grammar. -/
@@ -23,20 +25,27 @@ int64, bool, string, float64, nil, []int64, []uint64, []interface{}, *Condition,
 
 Proved: `C26_forward_nested_partial` (and its depth-1 case `C26_forward_flat_partial`) - the
 statement for the fragment `Nested`: calls nested to ANY depth (`Count(Union(Row(a=1), Row(b > 2)))`),
-every call with a generic name (any identifier that is not one of the nine special-form keywords),
-children that are again in the fragment, arguments `key=value` / `key op value` with field-name
-keys (letter, then letters/digits/`_`/`-`) in strictly increasing order, at least one child or
-argument, and values int64, nil, bool, string (any byte string, valid UTF-8 or not, whose quoted form
-does not begin like a timestamp: four digits and a dash), non-empty lists of int64, and conditions
-`== != < <= > >= ><` on an int64 or on a list of int64 (BETWEEN ranges).
+every call with a name other than `ClearRow`, `Store` (`NameOk`; these two are read by their DEDICATED
+alternatives in their usual shape: `C26_forward_clearrow`, `C26_forward_store`; the six special-form names
+`Set`, `SetRowAttrs`, `SetColumnAttrs`, `Clear`, `TopN`, `Rows` are in: `C26_forward_special_names`;
+`Range` is in when its first argument is a condition or it has a child: `C26_forward_range`),
+children that are again in the fragment, arguments `key=value` / `key op value` / `key=Inner(..)` (a
+CALL of the fragment as argument value: `C26_forward_call_args`) with keys that are
+field names (letter, then letters/digits/`_`/`-`) or reserved names (`_row _col _start _end _timestamp
+_field`: `C26_forward_reserved_keys`) in strictly increasing order, at least one child or argument,
+and values int64, nil, bool, string (ANY byte string, valid UTF-8 or not; a string whose quoted form
+is exactly a timestamp is read by the timestamp alternative of `item`, with the same value),
+non-empty lists of int64 / strings / booleans / nil in any mix with a last element that is not a
+keyword (`C26_forward_mixed_lists`), and conditions `== != < <= > >= ><` on an int64 or on a list of
+int64 (BETWEEN ranges).
 It goes through the generic PEG interpreter on the grammar REGENERATED from pql.peg (all ten
 alternatives of `Call` and of `item`, `arg`, `args`, all three of `allargs`, `Calls`), the model of the
 action machine with its call stack and the models of strconv.Quote/Unquote, for every table of
 printable characters.
-Excluded and still correspondence-only: floats, lists with other elements than int64, reserved keys (`_col`,
-`_field`, ..), strings whose quoted form begins like a timestamp, calls without children and arguments,
-call-valued arguments, the special-form names (Set, Clear, TopN, Rows, Range, ..); uint64 and typed id
-lists are recorded findings (they cannot round-trip: see the witnesses below). -/
+Excluded and still correspondence-only: floats, calls without
+children and arguments, `ClearRow` / `Store` in other shapes than `ClearRow(key=value)` /
+`Store(Child(..), key=value)`, and the form `Range(key=value, ..)`; uint64 and typed id lists are recorded findings (they cannot
+round-trip: see the witnesses below). -/
 
 /-- The parser with `n` units of fuel on the regenerated grammar. -/
 def parseN (n : Nat) (s : List Char) : M (List Call) := parseFuel Gen.rule Gen.start n s
@@ -46,19 +55,19 @@ theorem C26_forward_flat_partial (isPrint : Char → Bool) (hnl : isPrint '\n' =
     (∃ n, parseN n (fmtCall isPrint (.mk name args [])) = .ok [.mk name args []]) ∧
     (∀ n, parseN n (fmtCall isPrint (.mk name args [])) = .error .fuel ∨
           parseN n (fmtCall isPrint (.mk name args [])) = .ok [.mk name args []]) := by
-  obtain ⟨n0, hn0⟩ := flat_parses isPrint name args h
+  obtain ⟨n0, hn0⟩ := flat_parses isPrint hnl name args h
   obtain ⟨q, hq, hc⟩ := flat_exec isPrint hnl name args h
   refine ⟨⟨n0, by simp [parseN, parseFuel, hn0, hq, hc]⟩, fun n => ?_⟩
   rcases run_det Gen.rule hn0 (by simp) n with hf | ho
   · left; simp [parseN, parseFuel, hf]
   · right; simp [parseN, parseFuel, ho, hq, hc]
 
-/-- C26_forward for the nested fragment (T2 for generic names and simple values). -/
+/-- C26_forward for the nested fragment (T2: any depth, simple and call values, reserved keys, seven special-form names). -/
 theorem C26_forward_nested_partial (isPrint : Char → Bool) (hnl : isPrint '\n' = false)
     (d : Nat) (c : Call) (h : Nested isPrint d c) :
     (∃ n, parseN n (fmtCall isPrint c) = .ok [c]) ∧
     (∀ n, parseN n (fmtCall isPrint c) = .error .fuel ∨ parseN n (fmtCall isPrint c) = .ok [c]) := by
-  have hp := nested_parses isPrint d c h [] trivial
+  have hp := nested_parses isPrint hnl d c h [] trivial
   rw [List.append_nil] at hp
   obtain ⟨n0, hn0⟩ := calls_single _ _ (nested_text isPrint d c h).1 hp
   obtain ⟨t, ht⟩ := ((nested_exec isPrint hnl d c h) {} []).1 rfl
@@ -77,40 +86,279 @@ theorem C26_forward_nested_partial (isPrint : Char → Bool) (hnl : isPrint '\n'
 example : Nested (fun c => c.toNat ≥ 32 && c.toNat < 127) 3
     (.mk cl!"Count" [] [.mk cl!"Union" []
       [.mk cl!"Row" [(cl!"a", .int 1)] [], .mk cl!"Row" [(cl!"b", .cond .BETWEEN (.list [.int 2, .int 9]))] []]]) := by
-  refine ⟨⟨'C', cl!"ount", rfl, by decide, by decide⟩, by decide, Or.inr (by simp), by simp, trivial, ?_⟩
+  refine ⟨⟨'C', cl!"ount", rfl, by decide, by decide⟩, ⟨by decide, fun h => absurd h (by decide)⟩, Or.inr (by simp), by simp, trivial, ?_⟩
   intro ch hch
   simp only [List.mem_singleton] at hch
   subst hch
-  refine ⟨⟨'U', cl!"nion", rfl, by decide, by decide⟩, by decide, Or.inr (by simp), by simp, trivial, ?_⟩
+  refine ⟨⟨'U', cl!"nion", rfl, by decide, by decide⟩, ⟨by decide, fun h => absurd h (by decide)⟩, Or.inr (by simp), by simp, trivial, ?_⟩
   intro ch hch
   simp only [List.mem_cons, List.not_mem_nil, or_false] at hch
   rcases hch with rfl | rfl
-  · refine ⟨⟨'R', cl!"ow", rfl, by decide, by decide⟩, by decide, Or.inl (by simp), ?_, trivial, by simp⟩
+  · refine ⟨⟨'R', cl!"ow", rfl, by decide, by decide⟩, ⟨by decide, fun h => absurd h (by decide)⟩, Or.inl (by simp), ?_, trivial, by simp⟩
     intro kv hkv
     simp only [List.mem_singleton] at hkv
     subst hkv
-    exact ⟨⟨'a', [], rfl, by decide, by simp⟩, by decide, by decide⟩
-  · refine ⟨⟨'R', cl!"ow", rfl, by decide, by decide⟩, by decide, Or.inl (by simp), ?_, trivial, by simp⟩
+    exact ⟨.inl ⟨'a', [], rfl, by decide, by simp⟩, .inl ⟨by decide, by decide⟩⟩
+  · refine ⟨⟨'R', cl!"ow", rfl, by decide, by decide⟩, ⟨by decide, fun h => absurd h (by decide)⟩, Or.inl (by simp), ?_, trivial, by simp⟩
     intro kv hkv
     simp only [List.mem_singleton] at hkv
     subst hkv
-    exact ⟨⟨'b', [], rfl, by decide, by simp⟩, by simp [cmpOps], [2, 9], rfl, by simp, by decide⟩
+    exact ⟨.inl ⟨'b', [], rfl, by decide, by simp⟩, .inl ⟨by simp [cmpOps], [2, 9], rfl, by simp, by decide⟩⟩
+
+/-- C26_forward for call-valued arguments (nested calls as argument values, `item` alternative 7),
+at any depth and next to children: in the nested fragment an argument value may itself be a call of
+the fragment (`GroupBy(Rows(_field="a"), filter=Row(x=1), limit=10)`).  The printed text
+`key=Inner(..)` is read by the call alternative of `item` (the first six alternatives fail on
+`Inner(`), `startCall` under a pending field does not link the inner call as a child, and
+`addVal(endCall())` stores the finished call under the key: the re-parsed call has the same inner
+CALL (dynamic type `*pql.Call`) under that key. -/
+theorem C26_forward_call_args (isPrint : Char → Bool) (hnl : isPrint '\n' = false) (d : Nat)
+    (name : List Char) (args : List (Key × Val)) (children : List Call) (hn : IdentName name) (hok : NameOk name)
+    (hrng : RangeArgs name args children) (hne : args ≠ [] ∨ children ≠ [])
+    (hargs : ∀ kv ∈ args, KeyName kv.1 ∧ (SimpleVal isPrint kv.2 ∨ ∃ c, kv.2 = .call c ∧ Nested isPrint d c))
+    (hs : SortedKeys args) (hch : ∀ ch ∈ children, Nested isPrint d ch) :
+    (∃ n, parseN n (fmtCall isPrint (.mk name args children)) = .ok [.mk name args children]) ∧
+    (∀ n, parseN n (fmtCall isPrint (.mk name args children)) = .error .fuel ∨
+          parseN n (fmtCall isPrint (.mk name args children)) = .ok [.mk name args children]) :=
+  C26_forward_nested_partial isPrint hnl (d + 1) _ ⟨hn, ⟨hok, hrng⟩, hne, hargs, hs, hch⟩
+
+/-- Non-vacuity: `GroupBy(Rows(_field="a"), filter=Row(x=1), limit=10)` is in the nested fragment. -/
+example : Nested (fun c => c.toNat ≥ 32 && c.toNat < 127) 2
+    (.mk cl!"GroupBy" [(cl!"filter", .call (.mk cl!"Row" [(cl!"x", .int 1)] [])), (cl!"limit", .int 10)]
+      [.mk cl!"Rows" [(cl!"_field", .str [97])] []]) := by
+  refine ⟨⟨'G', cl!"roupBy", rfl, by decide, by decide⟩, ⟨by decide, fun h => absurd h (by decide)⟩, Or.inl (by simp), ?_, by simp [SortedKeys, ltKey], ?_⟩
+  · intro kv hkv
+    simp only [List.mem_cons, List.not_mem_nil, or_false] at hkv
+    rcases hkv with rfl | rfl
+    · refine ⟨.inl ⟨'f', cl!"ilter", rfl, by decide, by decide⟩, .inr ⟨_, rfl, ?_⟩⟩
+      refine ⟨⟨'R', cl!"ow", rfl, by decide, by decide⟩, ⟨by decide, fun h => absurd h (by decide)⟩, Or.inl (by simp), ?_, trivial, by simp⟩
+      intro kv hkv
+      simp only [List.mem_singleton] at hkv
+      subst hkv
+      exact ⟨.inl ⟨'x', [], rfl, by decide, by simp⟩, .inl ⟨by decide, by decide⟩⟩
+    · exact ⟨.inl ⟨'l', cl!"imit", rfl, by decide, by decide⟩, .inl ⟨by decide, by decide⟩⟩
+  · intro ch hch
+    simp only [List.mem_singleton] at hch
+    subst hch
+    refine ⟨⟨'R', cl!"ows", rfl, by decide, by decide⟩, ⟨by decide, fun h => absurd h (by decide)⟩, Or.inl (by simp), ?_, trivial, by simp⟩
+    intro kv hkv
+    simp only [List.mem_singleton] at hkv
+    subst hkv
+    exact ⟨.inr (by simp [reservedKws]), .inl (by simp [SimpleVal])⟩
+
+/-- C26_forward for the special-form names `Set`, `SetRowAttrs`, `SetColumnAttrs`, `Clear`, `TopN`,
+`Rows`: `Call.String` prints them like any call (`Name(children, key=value, ..)`), the dedicated
+alternative of `Call` (which starts with a positional `col` / `posfield`) FAILS on such a text - at
+`col`, at the comma after `posfield`, or at `close` - and the generic alternative reads it back as
+the same call.  Children are calls of the nested fragment (any depth, special names included).
+`Range`: see `C26_forward_range`; `ClearRow`, `Store`: `C26_forward_clearrow`, `C26_forward_store`. -/
+theorem C26_forward_special_names (isPrint : Char → Bool) (hnl : isPrint '\n' = false) (d : Nat)
+    (name : List Char) (args : List (Key × Val)) (children : List Call) (hname : name ∈ wideKws)
+    (hne : args ≠ [] ∨ children ≠ []) (hargs : ∀ kv ∈ args, KeyName kv.1 ∧ ArgOk isPrint d kv.2)
+    (hs : SortedKeys args) (hch : ∀ ch ∈ children, Nested isPrint d ch) :
+    (∃ n, parseN n (fmtCall isPrint (.mk name args children)) = .ok [.mk name args children]) ∧
+    (∀ n, parseN n (fmtCall isPrint (.mk name args children)) = .error .fuel ∨
+          parseN n (fmtCall isPrint (.mk name args children)) = .ok [.mk name args children]) := by
+  have hid : IdentName name ∧ NameOk name ∧ name ≠ rangeKw := by
+    simp only [wideKws, List.mem_cons, List.not_mem_nil, or_false] at hname
+    rcases hname with rfl | rfl | rfl | rfl | rfl | rfl <;>
+      exact ⟨⟨_, _, rfl, by decide, by decide⟩, by decide, by decide⟩
+  exact C26_forward_nested_partial isPrint hnl (d + 1) _
+    ⟨hid.1, ⟨hid.2.1, fun h => absurd h hid.2.2⟩, hne, hargs, hs, hch⟩
+
+/-- C26_forward for `Range`: the dedicated alternative (`field sp '=' sp value comma ..`) fails on a
+printed call whose first argument is a condition (`Range(f > 5)`, `Range(f >< [1,9])`, `Range(f == 3)`:
+it stops at the operator; for `==` at the second `=`) or that begins with a child call, and the
+generic alternative reads the same call back.  Left out: `Range(key=value, ..)` (the old
+`Range(f=1, from=.., to=..)` form, which the dedicated alternative can match). -/
+theorem C26_forward_range (isPrint : Char → Bool) (hnl : isPrint '\n' = false) (d : Nat)
+    (args : List (Key × Val)) (children : List Call)
+    (hfirst : children ≠ [] ∨ ∃ k op v rest, args = (k, .cond op v) :: rest)
+    (hargs : ∀ kv ∈ args, KeyName kv.1 ∧ ArgOk isPrint d kv.2)
+    (hs : SortedKeys args) (hch : ∀ ch ∈ children, Nested isPrint d ch) :
+    (∃ n, parseN n (fmtCall isPrint (.mk rangeKw args children)) = .ok [.mk rangeKw args children]) ∧
+    (∀ n, parseN n (fmtCall isPrint (.mk rangeKw args children)) = .error .fuel ∨
+          parseN n (fmtCall isPrint (.mk rangeKw args children)) = .ok [.mk rangeKw args children]) := by
+  have hne : args ≠ [] ∨ children ≠ [] := by
+    rcases hfirst with h | ⟨k, op, v, rest, rfl⟩
+    · exact Or.inr h
+    · exact Or.inl (by simp)
+  exact C26_forward_nested_partial isPrint hnl (d + 1) _
+    ⟨⟨'R', ['a', 'n', 'g', 'e'], rfl, by decide, by decide⟩, ⟨by decide, fun _ => hfirst⟩, hne, hargs, hs, hch⟩
+
+/-- Non-vacuity: `Range(f > 5)` is in the nested fragment. -/
+example : Nested (fun c => c.toNat ≥ 32 && c.toNat < 127) 1 (.mk cl!"Range" [(cl!"f", .cond .GT (.int 5))] []) := by
+  refine ⟨⟨'R', cl!"ange", rfl, by decide, by decide⟩, ⟨by decide, fun _ => Or.inr ⟨_, _, _, _, rfl⟩⟩,
+    Or.inl (by simp), ?_, trivial, by simp⟩
+  intro kv hkv
+  simp only [List.mem_singleton] at hkv
+  subst hkv
+  exact ⟨.inl ⟨'f', [], rfl, by decide, by simp⟩, .inl ⟨by simp [cmpOps], by decide, by decide⟩⟩
+
+/-- From a parse of the whole text and the run of its events to the statement about `parseN`. -/
+theorem parse_of_run (s : List Char) (evs : List Ev) (c : Call)
+    (hp : P (.ref Gen.start) s [] evs)
+    (hx : ∃ t, exec evs {} = .ok { calls := [c], stack := [], text := t }) :
+    (∃ n, parseN n s = .ok [c]) ∧ (∀ n, parseN n s = .error .fuel ∨ parseN n s = .ok [c]) := by
+  obtain ⟨n0, hn0⟩ := hp
+  obtain ⟨t, ht⟩ := hx
+  refine ⟨⟨n0, by simp [parseN, parseFuel, hn0, ht]⟩, fun n => ?_⟩
+  rcases run_det Gen.rule hn0 (by simp) n with hf | ho
+  · left; simp [parseN, parseFuel, hf]
+  · right; simp [parseN, parseFuel, ho, ht]
+
+/-- C26_forward for lists with other elements than int64: a list argument may hold int64, strings (any
+bytes), booleans and nil in any mix, the LAST element not being `null`/`true`/`false` (recorded
+finding `list-last-keyword`) - e.g. `TopN(attrName="x", attrValues=["a",true,7], n=5)`.  Each element
+goes through `item` with the delimiter that follows it (`,` or `]`), the action machine appends it to
+the list under the pending key. -/
+theorem C26_forward_mixed_lists (isPrint : Char → Bool) (hnl : isPrint '\n' = false)
+    (name : List Char) (k : Key) (init : List Val) (last : Val) (hn : IdentName name) (hok : NameOk name)
+    (hnr : name ≠ rangeKw) (hk : KeyName k) (hinit : ∀ v ∈ init, FwdScalar v) (hlast : FwdScalar last)
+    (hkw : isKwVal last = false) :
+    (∃ n, parseN n (fmtCall isPrint (.mk name [(k, .list (init ++ [last]))] [])) =
+        .ok [.mk name [(k, .list (init ++ [last]))] []]) ∧
+    (∀ n, parseN n (fmtCall isPrint (.mk name [(k, .list (init ++ [last]))] [])) = .error .fuel ∨
+          parseN n (fmtCall isPrint (.mk name [(k, .list (init ++ [last]))] [])) =
+            .ok [.mk name [(k, .list (init ++ [last]))] []]) :=
+  C26_forward_flat_partial isPrint hnl name _
+    ⟨hn, ⟨hok, fun h => absurd h hnr⟩, by simp,
+      fun kv hkv => by
+        simp only [List.mem_singleton] at hkv
+        subst hkv
+        exact ⟨hk, init, last, rfl, hinit, hlast, hkw⟩,
+      by simp [SortedKeys]⟩
+
+/-- Non-vacuity: `TopN(attrName="x", attrValues=["a",true,7], n=5)` is in the flat fragment. -/
+example : FlatCall (fun c => c.toNat ≥ 32 && c.toNat < 127) cl!"TopN"
+    [(cl!"attrName", .str [120]), (cl!"attrValues", .list [.str [97], .bool true, .int 7]), (cl!"n", .int 5)] where
+  name_ok := ⟨'T', cl!"opN", rfl, by decide, by decide⟩
+  name_free := ⟨by decide, fun h => absurd h (by decide)⟩
+  nonempty := by simp
+  args_ok := by
+    intro kv hkv
+    simp only [List.mem_cons, List.not_mem_nil, or_false] at hkv
+    rcases hkv with rfl | rfl | rfl
+    · exact ⟨.inl ⟨'a', cl!"ttrName", rfl, by decide, by decide⟩, by simp [SimpleVal]⟩
+    · refine ⟨.inl ⟨'a', cl!"ttrValues", rfl, by decide, by decide⟩, [.str [97], .bool true], .int 7, rfl, ?_,
+        ⟨by decide, by decide⟩, rfl⟩
+      intro v hv
+      simp only [List.mem_cons, List.not_mem_nil, or_false] at hv
+      rcases hv with rfl | rfl
+      · simp [FwdScalar]
+      · trivial
+    · exact ⟨.inl ⟨'n', [], rfl, by decide, by simp⟩, by decide, by decide⟩
+  sorted := by simp [SortedKeys, ltKey]
+
+/-- C26_forward for `ClearRow(key=value)`: here the DEDICATED alternative of `Call`
+(`'ClearRow' open arg close`) reads the printed text; its events differ from the generic ones
+(`startCall` receives the literal name) and the resulting call is the same. -/
+theorem C26_forward_clearrow (isPrint : Char → Bool) (hnl : isPrint '\n' = false) (k : Key) (v : Val)
+    (hk : KeyName k) (hv : SimpleVal isPrint v) :
+    (∃ n, parseN n (fmtCall isPrint (.mk clearRowKw [(k, v)] [])) = .ok [.mk clearRowKw [(k, v)] []]) ∧
+    (∀ n, parseN n (fmtCall isPrint (.mk clearRowKw [(k, v)] [])) = .error .fuel ∨
+          parseN n (fmtCall isPrint (.mk clearRowKw [(k, v)] [])) = .ok [.mk clearRowKw [(k, v)] []]) := by
+  have htext : fmtCall isPrint (.mk clearRowKw [(k, v)] []) =
+      clearRowKw ++ '(' :: (argText isPrint (k, v) ++ [')']) := by
+    rw [fmtCall_nested isPrint _ _ _ (by simp [clearRowKw])]
+    simp [fmtCalls, joinWith]
+  rw [htext]
+  exact parse_of_run _ _ _
+    (calls_single _ _ (by simp [clearRowKw, NoWs, isWs]) (clearrow_call isPrint hnl k v hk hv))
+    (clearrow_exec isPrint hnl k v hk hv)
+
+/-- C26_forward for `Store(Child(..), key=value)` (child in the nested fragment): read by the DEDICATED
+alternative (`'Store' open Call comma arg close`), same resulting call. -/
+theorem C26_forward_store (isPrint : Char → Bool) (hnl : isPrint '\n' = false) (d : Nat) (ch : Call) (k : Key)
+    (v : Val) (hch : Nested isPrint d ch) (hk : KeyName k) (hv : SimpleVal isPrint v) :
+    (∃ n, parseN n (fmtCall isPrint (.mk storeKw [(k, v)] [ch])) = .ok [.mk storeKw [(k, v)] [ch]]) ∧
+    (∀ n, parseN n (fmtCall isPrint (.mk storeKw [(k, v)] [ch])) = .error .fuel ∨
+          parseN n (fmtCall isPrint (.mk storeKw [(k, v)] [ch])) = .ok [.mk storeKw [(k, v)] [ch]]) := by
+  have htext : fmtCall isPrint (.mk storeKw [(k, v)] [ch]) =
+      storeKw ++ '(' :: (fmtCall isPrint ch ++ ',' :: ' ' :: (argText isPrint (k, v) ++ [')'])) := by
+    rw [fmtCall_nested isPrint _ _ _ (by simp [storeKw])]
+    simp [fmtCalls, joinWith]
+  rw [htext]
+  exact parse_of_run _ _ _
+    (calls_single _ _ (by simp [storeKw, NoWs, isWs]) (store_call isPrint hnl d ch k v hch hk hv))
+    (store_exec isPrint hnl d ch k v hch hk hv)
+
+/-- C26_forward for the reserved keys `_row`, `_col`, `_start`, `_end`, `_timestamp`, `_field`
+(`field <- <fieldExpr / reserved>`): a call whose keys are field names or reserved names, in key
+order, with simple values, is read back as the same call - with the special-form names above
+included (`Set(_col=5, f=1)`, `Rows(_field="f", limit=3)`): `col` / `posfield` of the dedicated
+alternative fail on `_`. -/
+theorem C26_forward_reserved_keys (isPrint : Char → Bool) (hnl : isPrint '\n' = false)
+    (name : List Char) (args : List (Key × Val)) (hn : IdentName name) (hok : NameOk name) (hrng : RangeArgs name args []) (hne : args ≠ [])
+    (hkeys : ∀ kv ∈ args, kv.1 ∈ reservedKws ∨ FieldName kv.1) (hv : ∀ kv ∈ args, SimpleVal isPrint kv.2)
+    (hs : SortedKeys args) :
+    (∃ n, parseN n (fmtCall isPrint (.mk name args [])) = .ok [.mk name args []]) ∧
+    (∀ n, parseN n (fmtCall isPrint (.mk name args [])) = .error .fuel ∨
+          parseN n (fmtCall isPrint (.mk name args [])) = .ok [.mk name args []]) :=
+  C26_forward_flat_partial isPrint hnl name args
+    ⟨hn, ⟨hok, hrng⟩, hne, fun kv hkv => ⟨(hkeys kv hkv).elim Or.inr Or.inl, hv kv hkv⟩, hs⟩
+
+/-- Non-vacuity: `Set(_col=5, f=1)` (special-form name, reserved key) is in the flat fragment. -/
+example : FlatCall (fun c => c.toNat ≥ 32 && c.toNat < 127) cl!"Set" [(cl!"_col", .int 5), (cl!"f", .int 1)] where
+  name_ok := ⟨'S', ['e', 't'], rfl, by decide, by decide⟩
+  name_free := ⟨by decide, fun h => absurd h (by decide)⟩
+  nonempty := by simp
+  args_ok := by
+    intro kv hkv
+    simp only [List.mem_cons, List.not_mem_nil, or_false] at hkv
+    rcases hkv with rfl | rfl
+    · exact ⟨.inr (by simp [reservedKws]), by decide, by decide⟩
+    · exact ⟨.inl ⟨'f', [], rfl, by decide, by simp⟩, by decide, by decide⟩
+  sorted := by simp [SortedKeys, ltKey]
+
+/-- Non-vacuity: `Set(_col=5, _timestamp="2019-01-01T00:00", f=1)` - what the executor forwards for a
+`Set` with a timestamp: special-form name, reserved keys, and a string that is exactly a timestamp
+(read by the timestamp alternative of `item`). -/
+example : FlatCall (fun c => c.toNat ≥ 32 && c.toNat < 127) cl!"Set"
+    [(cl!"_col", .int 5), (cl!"_timestamp", .str (utf8s cl!"2019-01-01T00:00")), (cl!"f", .int 1)] where
+  name_ok := ⟨'S', ['e', 't'], rfl, by decide, by decide⟩
+  name_free := ⟨by decide, fun h => absurd h (by decide)⟩
+  nonempty := by simp
+  args_ok := by
+    intro kv hkv
+    simp only [List.mem_cons, List.not_mem_nil, or_false] at hkv
+    rcases hkv with rfl | rfl | rfl
+    · exact ⟨.inr (by simp [reservedKws]), by decide, by decide⟩
+    · exact ⟨.inr (by simp [reservedKws]), by simp [SimpleVal, utf8s, utf8]⟩
+    · exact ⟨.inl ⟨'f', [], rfl, by decide, by simp⟩, by decide, by decide⟩
+  sorted := by simp [SortedKeys, ltKey]
+
+/-- Non-vacuity: `TopN(Row(a=1), n=5)` (a special-form name with a child) is in the nested fragment. -/
+example : Nested (fun c => c.toNat ≥ 32 && c.toNat < 127) 2
+    (.mk cl!"TopN" [(cl!"n", .int 5)] [.mk cl!"Row" [(cl!"a", .int 1)] []]) := by
+  refine ⟨⟨'T', cl!"opN", rfl, by decide, by decide⟩, ⟨by decide, fun h => absurd h (by decide)⟩, Or.inl (by simp), ?_, trivial, ?_⟩
+  · intro kv hkv
+    simp only [List.mem_singleton] at hkv
+    subst hkv
+    exact ⟨.inl ⟨'n', [], rfl, by decide, by simp⟩, .inl ⟨by decide, by decide⟩⟩
+  · intro ch hch
+    simp only [List.mem_singleton] at hch
+    subst hch
+    refine ⟨⟨'R', cl!"ow", rfl, by decide, by decide⟩, ⟨by decide, fun h => absurd h (by decide)⟩, Or.inl (by simp), ?_, trivial, by simp⟩
+    intro kv hkv
+    simp only [List.mem_singleton] at hkv
+    subst hkv
+    exact ⟨.inl ⟨'a', [], rfl, by decide, by simp⟩, .inl ⟨by decide, by decide⟩⟩
 
 /-- Non-vacuity: `Row(f=-7, g="é\"x", h=null, k=true)` is in the flat fragment. -/
 example : FlatCall (fun c => c.toNat ≥ 32 && c.toNat < 127) cl!"Row"
     [(cl!"f", .int (-7)), (cl!"g", .str [0xc3, 0xa9, 34, 120]), (cl!"h", .null), (cl!"k", .bool true)] where
   name_ok := ⟨'R', ['o', 'w'], rfl, by decide, by decide⟩
-  not_special := by decide
+  name_free := ⟨by decide, fun h => absurd h (by decide)⟩
   nonempty := by simp
   args_ok := by
     intro kv hkv
     simp only [List.mem_cons, List.not_mem_nil, or_false] at hkv
     rcases hkv with rfl | rfl | rfl | rfl
-    · exact ⟨⟨'f', [], rfl, by decide, by simp⟩, by decide, by decide⟩
-    · exact ⟨⟨'g', [], rfl, by decide, by simp⟩, by decide,
-        by simp [tsPrefix5, quoteBody, pieces, decodeRune, isCont, quotePiece, isDigit]⟩
-    · exact ⟨⟨'h', [], rfl, by decide, by simp⟩, trivial⟩
-    · exact ⟨⟨'k', [], rfl, by decide, by simp⟩, trivial⟩
+    · exact ⟨.inl ⟨'f', [], rfl, by decide, by simp⟩, by decide, by decide⟩
+    · exact ⟨.inl ⟨'g', [], rfl, by decide, by simp⟩, by simp [SimpleVal]⟩
+    · exact ⟨.inl ⟨'h', [], rfl, by decide, by simp⟩, trivial⟩
+    · exact ⟨.inl ⟨'k', [], rfl, by decide, by simp⟩, trivial⟩
   sorted := by simp [SortedKeys, ltKey]
 
 /-! ## Value layer -/
@@ -126,18 +374,16 @@ example : unquote (quote (fun c => c.toNat ≥ 32 && c.toNat < 127) [0xc3, 0xa9,
   C26_string_roundtrip _ (by decide) _ (by decide)
 
 /-- C26_literals, string layer: a double-quoted literal written from structurally described items
-(plain characters of all of Unicode, the single-letter escapes, `\\xHH`, `\\uHHHH`, `\\UHHHHHHHH`) denotes
-exactly the bytes `strconv.Unquote` returns for its text.  Excluded: octal escapes `\\ooo`
-(correspondence only).  The full C26_literals (every literal form through the parser) is not yet
-proved. -/
-theorem C26_literal_dq_partial (items : List DqItem) (hok : ∀ it ∈ items, it.ok = true)
-    (hno : ∀ it ∈ items, ∀ b, it ≠ .oct b) :
+(plain characters of all of Unicode, the single-letter escapes, `\\xHH`, `\\ooo`, `\\uHHHH`, `\\UHHHHHHHH`)
+denotes exactly the bytes `strconv.Unquote` returns for its text.  `C26_literals_dq` below takes it
+through the parser. -/
+theorem C26_literal_dq_partial (items : List DqItem) (hok : ∀ it ∈ items, it.ok = true) :
     unquote (Lit.write (.dq items)) = some (items.flatMap DqItem.value) := by
-  simpa [Lit.write] using unquote_dqItems items hok hno
+  simpa [Lit.write] using unquote_dqItems items hok
 
 example : unquote (Lit.write (.dq [.ch 'é', .esc 'n', .hex 255, .u4 0x20AC, .u8 0x1F600])) =
     some [0xc3, 0xa9, 10, 255, 0xe2, 0x82, 0xac, 0xf0, 0x9f, 0x98, 0x80] := by
-  rw [C26_literal_dq_partial _ (by decide) (by intro it hit b; simp at hit; rcases hit with rfl | rfl | rfl | rfl | rfl <;> simp)]
+  rw [C26_literal_dq_partial _ (by decide)]
   decide
 
 /-- Integers: an int64 printed by `Call.String` is read back as the same int64. -/
@@ -163,6 +409,192 @@ theorem C26_item_int_partial (neg : Bool) (ds r : List Char) (d : Char) (hne : d
     Parses Gen.rule (.ref Gen.R.item) ((signText neg ++ ds) ++ d :: r) (d :: r)
       [.text (signText neg ++ ds), .act .addNumVal] :=
   item_int_ok neg ds r d hne hall hd
+
+/-! ## C26_literals, through the parser
+
+`writeCall name args` is the text `Name(arg, arg, ..)` of a call written from structurally described
+arguments (`WArg`: `key=value`, `key op value`, `lo < key <= hi`) whose values are structurally
+described literals (`Lit`); `writtenCall name args` is the call those arguments denote BY
+CONSTRUCTION (Spec.lean: no decoder is run on the specification side).  `ParsesTo s cs` says that
+the PEG interpreter on the REGENERATED grammar followed by the action machine returns `cs` on `s`:
+some fuel suffices and every fuel gives that result or runs out.
+
+`C26_literals` covers, for every call name that is an identifier other than the nine special-form
+keywords, every non-empty argument list with pairwise distinct field-name keys IN ANY ORDER, and:
+  * ints `-?[0-9]+` in the int64 range, in any written form (leading zeros, `-0`);
+  * floats `-?d+.d*` and `-?.d+` as opaque decimal text (`normDec`);
+  * `null`, `true`, `false`;
+  * double-quoted strings from plain characters of all of Unicode (other than `"`, `\` and newline)
+    and the escapes `\a \b \f \n \r \t \v \\ \"`, `\xHH`, `\ooo`, `\uHHHH`, `\UHHHHHHHH`, WHATEVER the content -
+    a content that is exactly a timestamp goes through the timestamp alternative of `item` and gives
+    the same string, any other content that begins like a timestamp falls through to the string rule;
+  * single-quoted strings of any characters other than `'` and `\` (same remark on timestamps);
+  * timestamps `yyyy-mm-ddThh:mm` bare, double- and single-quoted;
+  * bare words (first character a letter, `_` or `:`, then letters, digits, `-`, `_`, `:`; not a keyword);
+  * lists `[a,b,..]` of any of the scalars above;
+  * conditions `== != < <= > >= ><` on any scalar or on a list of numbers;
+  * BETWEEN ranges `lo < key <= hi` (both `<` and `<=` on either side) with int64 bounds.
+Explicit exclusions (and why):
+  * `list-last-keyword` (recorded finding): a list whose LAST element is `null`/`true`/`false`;
+  * `sq-escape-kept` (recorded finding): `\'` and `\\` inside single quotes;
+  * bare words that begin with a digit or `-` (the numeric alternatives read a prefix first) - not
+    values of the grammar in general; call-valued arguments (alternative 7) are `C26_call_valued_args`;
+  * a list under a condition must be numeric: `addVal` on a list under a condition is a
+    type-assertion panic in ast.go, so there is no value to specify;
+  * a strict bound at the end of the range (`maxInt64 < k`, `k < minInt64`) wraps in ast.go. -/
+
+/-- C26_literals: every call written from well-formed arguments parses to exactly the call the
+arguments denote. -/
+theorem C26_literals (name : List Char) (args : List WArg) (hn : IdentName name) (hsp : name ∉ specialKws)
+    (hne : args ≠ []) (hok : ∀ a ∈ args, a.Ok) (hd : (args.map WArg.key).Pairwise (· ≠ ·)) :
+    ParsesTo (writeCall name args) [writtenCall name args] :=
+  literals_parse name args hn hsp hne hok hd
+
+/-- Non-vacuity of C26_literals: `Row(b="x\n\007\u20ac", a > [1,-.5], 1 < d <= 5, _col=[null,'2019-01-01T00:00'])`
+(keys not in order, octal and unicode escapes, a list under a condition, a BETWEEN range, a reserved
+key, a keyword that is not the last list element, a quoted timestamp). -/
+example : ParsesTo
+    (writeCall cl!"Row" [.kv cl!"b" (.dq [.ch 'x', .esc 'n', .oct 7, .u4 0x20AC]),
+      .kc cl!"a" .GT (.list [.int false ['1'], .float true [] ['5']]),
+      .between 1 true cl!"d" false 5,
+      .kv cl!"_col" (.list [.null, .ts .sq cl!"2019-01-01T00:00"])])
+    [writtenCall cl!"Row" [.kv cl!"b" (.dq [.ch 'x', .esc 'n', .oct 7, .u4 0x20AC]),
+      .kc cl!"a" .GT (.list [.int false ['1'], .float true [] ['5']]),
+      .between 1 true cl!"d" false 5,
+      .kv cl!"_col" (.list [.null, .ts .sq cl!"2019-01-01T00:00"])]] := by
+  refine C26_literals _ _ ⟨'R', cl!"ow", rfl, by decide, by decide⟩ (by decide) (by simp) ?_ (by decide)
+  intro a ha
+  simp only [List.mem_cons, List.not_mem_nil, or_false] at ha
+  rcases ha with rfl | rfl | rfl | rfl
+  · exact ⟨.inl ⟨'b', [], rfl, by decide, by simp⟩, show ∀ it ∈ _, DqItem.ok it = true by decide⟩
+  · refine ⟨.inl ⟨'a', [], rfl, by decide, by simp⟩, by simp [cmpOps], by simp, ?_⟩
+    intro x hx
+    simp only [List.mem_cons, List.not_mem_nil, or_false] at hx
+    rcases hx with rfl | rfl
+    · exact ⟨⟨by simp, by decide, by decide, by decide⟩, rfl⟩
+    · exact ⟨⟨by simp, by decide, by simp⟩, rfl⟩
+  · exact ⟨⟨'d', [], rfl, by decide, by simp⟩, by decide, by decide, by decide, by decide⟩
+  · refine ⟨.inr (by simp [reservedKws]), [.null], .ts .sq cl!"2019-01-01T00:00", rfl, ?_, show tsShape _ = true by decide, rfl⟩
+    intro x hx
+    simp only [List.mem_singleton] at hx
+    subst hx
+    trivial
+theorem writtenCall_single (name : List Char) (a : WArg) :
+    writtenCall name [a] = .mk name [(a.key, a.value)] [] := by
+  simp [writtenCall, insert]
+
+/-- One argument: the per-class theorems below are this with the class conditions spelled out. -/
+theorem literals_single (name : List Char) (a : WArg) (hn : IdentName name) (hsp : name ∉ specialKws)
+    (h : a.Ok) : ParsesTo (writeCall name [a]) [.mk name [(a.key, a.value)] []] := by
+  rw [← writtenCall_single]
+  exact literals_parse name [a] hn hsp (by simp) (by simpa using h) (by simp)
+
+/-- Integers: `-?[0-9]+` within int64, in any written form, is stored as that int64. -/
+theorem C26_literals_int (name k : List Char) (neg : Bool) (ds : List Char) (hn : IdentName name)
+    (hsp : name ∉ specialKws) (hk : KeyName k) (hne : ds ≠ []) (hall : ∀ c ∈ ds, isDigit c = true)
+    (hr : minInt64 ≤ intOf neg ds ∧ intOf neg ds ≤ maxInt64) :
+    ParsesTo (writeCall name [.kv k (.int neg ds)]) [.mk name [(k, .int (intOf neg ds))] []] :=
+  literals_single name (.kv k (.int neg ds)) hn hsp ⟨hk, hne, hall, hr⟩
+
+/-- Floats: `-?d+.d*` and `-?.d+`, stored as the float64 of the written decimal (opaque text). -/
+theorem C26_literals_float (name k : List Char) (neg : Bool) (ip fp : List Char) (hn : IdentName name)
+    (hsp : name ∉ specialKws) (hk : KeyName k) (hip : ∀ c ∈ ip, isDigit c = true)
+    (hfp : ∀ c ∈ fp, isDigit c = true) (hne : ip ≠ [] ∨ fp ≠ []) :
+    ParsesTo (writeCall name [.kv k (.float neg ip fp)])
+      [.mk name [(k, .float (normDec ((if neg then ['-'] else []) ++ ip ++ ['.'] ++ fp)))] []] :=
+  literals_single name (.kv k (.float neg ip fp)) hn hsp ⟨hk, hip, hfp, hne⟩
+
+/-- `null`. -/
+theorem C26_literals_null (name k : List Char) (hn : IdentName name) (hsp : name ∉ specialKws) (hk : KeyName k) :
+    ParsesTo (writeCall name [.kv k .null]) [.mk name [(k, .null)] []] :=
+  literals_single name (.kv k .null) hn hsp ⟨hk, trivial⟩
+
+/-- `true` / `false`. -/
+theorem C26_literals_bool (name k : List Char) (b : Bool) (hn : IdentName name) (hsp : name ∉ specialKws)
+    (hk : KeyName k) : ParsesTo (writeCall name [.kv k (.bool b)]) [.mk name [(k, .bool b)] []] :=
+  literals_single name (.kv k (.bool b)) hn hsp ⟨hk, trivial⟩
+
+/-- Double-quoted strings over all of Unicode with their escapes, whatever the content. -/
+theorem C26_literals_dq (name k : List Char) (items : List DqItem) (hn : IdentName name) (hsp : name ∉ specialKws)
+    (hk : KeyName k) (hok : ∀ it ∈ items, it.ok = true) :
+    ParsesTo (writeCall name [.kv k (.dq items)]) [.mk name [(k, .str (items.flatMap DqItem.value))] []] :=
+  literals_single name (.kv k (.dq items)) hn hsp ⟨hk, hok⟩
+
+/-- Single-quoted strings of any characters other than `'` and `\`, whatever the content. -/
+theorem C26_literals_sq (name k : List Char) (items : List SqItem) (hn : IdentName name) (hsp : name ∉ specialKws)
+    (hk : KeyName k) (hit : ∀ it ∈ items, ∃ c, it = .ch c ∧ c ≠ '\'' ∧ c ≠ '\\') :
+    ParsesTo (writeCall name [.kv k (.sq items)]) [.mk name [(k, .str (items.flatMap SqItem.value))] []] :=
+  literals_single name (.kv k (.sq items)) hn hsp ⟨hk, hit⟩
+
+/-- Timestamps in the three quote styles: the sixteen characters as a string. -/
+theorem C26_literals_timestamp (name k : List Char) (st : TsStyle) (cs : List Char) (hn : IdentName name)
+    (hsp : name ∉ specialKws) (hk : KeyName k) (hts : tsShape cs = true) :
+    ParsesTo (writeCall name [.kv k (.ts st cs)]) [.mk name [(k, .str (utf8s cs))] []] :=
+  literals_single name (.kv k (.ts st cs)) hn hsp ⟨hk, hts⟩
+
+/-- Bare words (`item` alternative 8): first character a letter, `_` or `:`, then letters, digits, `-`,
+`_`, `:`, and not one of the keywords: the string of the characters. -/
+theorem C26_literals_bare (name k : List Char) (w : List Char) (hn : IdentName name) (hsp : name ∉ specialKws)
+    (hk : KeyName k) (hw : BareWord w) :
+    ParsesTo (writeCall name [.kv k (.bare w)]) [.mk name [(k, .str (utf8s w))] []] :=
+  literals_single name (.kv k (.bare w)) hn hsp ⟨hk, hw⟩
+
+/-- Lists of scalars; the last element is not a keyword (`list-last-keyword`). -/
+theorem C26_literals_list (name k : List Char) (init : List Lit) (last : Lit) (hn : IdentName name)
+    (hsp : name ∉ specialKws) (hk : KeyName k) (hinit : ∀ x ∈ init, x.Scalar) (hlast : last.Scalar)
+    (hkw : last.isKw = false) :
+    ParsesTo (writeCall name [.kv k (.list (init ++ [last]))])
+      [.mk name [(k, .list (Lit.values (init ++ [last])))] []] :=
+  literals_single name (.kv k (.list (init ++ [last]))) hn hsp ⟨hk, init, last, rfl, hinit, hlast, hkw⟩
+
+/-- Conditions `key op value` for the seven operators, on a scalar or on a list of numbers. -/
+theorem C26_literals_cond (name k : List Char) (op : Op) (v : Lit) (hn : IdentName name) (hsp : name ∉ specialKws)
+    (hk : KeyName k) (hop : op ∈ cmpOps) (hv : v.NumOk) :
+    ParsesTo (writeCall name [.kc k op v]) [.mk name [(k, .cond op v.value)] []] :=
+  literals_single name (.kc k op v) hn hsp ⟨hk, hop, hv⟩
+
+/-- BETWEEN ranges `lo <[=] key <[=] hi`: strict bounds are moved inwards by one. -/
+theorem C26_literals_between (name k : List Char) (lo hi : Int) (sl sh : Bool) (hn : IdentName name)
+    (hsp : name ∉ specialKws) (hk : FieldName k) (hlo : minInt64 ≤ lo ∧ lo ≤ maxInt64)
+    (hhi : minInt64 ≤ hi ∧ hi ≤ maxInt64) (hsl : sl = true → lo < maxInt64) (hsh : sh = true → minInt64 < hi) :
+    ParsesTo (writeCall name [.between lo sl k sh hi])
+      [.mk name [(k, .cond .BETWEEN (.list [.int (if sl then lo + 1 else lo), .int (if sh then hi - 1 else hi)]))] []] :=
+  literals_single name (.between lo sl k sh hi) hn hsp ⟨hk, hlo, hhi, hsl, hsh⟩
+
+/-- Call-valued arguments (nested calls as argument values, `item` alternative 7):
+`Name(key=Inner(..), ..)` where every call-valued argument is `Call.String` of a call of the nested
+fragment (any depth; reserved keys and the six special-form names included) and the other arguments
+are written literals as in `C26_literals`, with pairwise distinct keys in any order, parses to the
+call whose argument map holds the inner CALLS under their keys.  Through the parser: the first six
+alternatives of `item` fail on `Inner(`, the call alternative runs `allargs` on the inner body (the
+same derivation as for a child call) and `addVal(endCall())` stores the finished call; `startCall`
+under a pending field does not link the call as a child (`Attach.none`).
+(The forward direction, at any depth and next to children, is `C26_forward_call_args`.) -/
+theorem C26_call_valued_args (isPrint : Char → Bool) (hnl : isPrint '\n' = false) (d : Nat)
+    (name : List Char) (args : List XArg) (hn : IdentName name) (hsp : name ∉ specialKws) (hne : args ≠ [])
+    (hok : ∀ a ∈ args, a.Ok isPrint d) (hd : (args.map XArg.key).Pairwise (· ≠ ·)) :
+    ParsesTo (name ++ ['('] ++ joinWith [',', ' '] (args.map (XArg.write isPrint)) ++ [')'])
+      [.mk name (args.foldl (fun m a => insert a.key a.value m) []) []] :=
+  xargs_parse isPrint hnl d name args hn hsp hne hok hd
+
+/-- Non-vacuity: `Options(filter=Row(x=1), limit=10)`. -/
+example : ParsesTo
+    (cl!"Options" ++ ['('] ++ joinWith [',', ' '] ([XArg.call cl!"filter" (.mk cl!"Row" [(cl!"x", .int 1)] []),
+      XArg.lit (.kv cl!"limit" (.int false ['1', '0']))].map (XArg.write (fun c => c.toNat ≥ 32 && c.toNat < 127))) ++ [')'])
+    [.mk cl!"Options" ([XArg.call cl!"filter" (.mk cl!"Row" [(cl!"x", .int 1)] []),
+      XArg.lit (.kv cl!"limit" (.int false ['1', '0']))].foldl (fun m a => insert a.key a.value m) []) []] := by
+  refine C26_call_valued_args _ (by decide) 1 _ _ ⟨'O', cl!"ptions", rfl, by decide, by decide⟩ (by decide)
+    (by simp) ?_ (by decide)
+  intro a ha
+  simp only [List.mem_cons, List.not_mem_nil, or_false] at ha
+  rcases ha with rfl | rfl
+  · refine ⟨.inl ⟨'f', cl!"ilter", rfl, by decide, by decide⟩,
+      ⟨'R', cl!"ow", rfl, by decide, by decide⟩, ⟨by decide, fun h => absurd h (by decide)⟩, Or.inl (by simp), ?_, trivial, by simp⟩
+    intro kv hkv
+    simp only [List.mem_singleton] at hkv
+    subst hkv
+    exact ⟨.inl ⟨'x', [], rfl, by decide, by simp⟩, .inl ⟨by decide, by decide⟩⟩
+  · exact ⟨.inl ⟨'l', cl!"imit", rfl, by decide, by decide⟩, by simp, by decide, by decide, by decide⟩
 
 /-! ## Witnesses of the recorded findings (known_findings.jsonl) -/
 
